@@ -108,7 +108,20 @@ impl SimCtx {
                  recorders: BTreeMap::new(), ssp_addr: None, iregs: BTreeMap::from([(0xFFFC, "psr"), (0xFFFE, "mcr")]), fill, timed_out: false }
     }
 
-    fn sync_all(&mut self) { for a in 0..=u16::MAX { self.shadow[a as usize] = self.sim.mem[a]; } }
+    /// value of a cell as of creation is not kept; `known` is issued before any execution, when untouched cells still hold it
+    fn shadow_initial(&self, a: u16) -> (u16, u16) { self.sim.mem[a].verif_parts() }
+    /// `sim rawmem` / `sim rawreg` lines reproducing the whole machine image (for seeded initialisation)
+    pub fn raw_dump(&self) -> Vec<String> {
+        let mut v = vec![];
+        for base in (0..0x10000u32).step_by(512) {
+            let mut l = format!("sim rawmem {:04x}", base);
+            for a in base..base + 512 { l.push(' '); l.push_str(&wd(self.sim.mem[a as u16])); }
+            v.push(l);
+        }
+        for i in 0..8u8 { let (d, m) = self.sim.reg_file[Reg::try_from(i).unwrap()].verif_parts(); v.push(format!("sim rawreg {} {} {}", i, hex16(d), hex16(m))); }
+        v
+    }
+    pub fn sync_all(&mut self) { for a in 0..=u16::MAX { self.shadow[a as usize] = self.sim.mem[a]; } }
     fn sync(&mut self, a: u16) { self.shadow[a as usize] = self.sim.mem[a]; }
 
     /// Runs `f` on the simulator with the flagged buffer locks held by this thread (try_write then fails).
@@ -304,6 +317,7 @@ impl SimCtx {
                 let Ok(id) = id.parse::<u16>() else { return "bad-op".into() };
                 self.sim.device_handler.remove_device(id);
                 self.timers.remove(&id);
+                self.recorders.remove(&id);
                 if id == 1 { self.kb = None; } if id == 2 { self.ds = None; }
                 "ok".into()
             }
@@ -385,6 +399,17 @@ impl SimCtx {
                 if parts.len() <= 24 { format!("[{}]", parts.join(",")) }
                 else { format!("#{}:{:016x}", parts.len(), fnv(v.iter().map(|(a, f)| ((*a as u64) << 8) | *f as u64))) }
             }
+            ["memhash", "u"] => {
+                let hsh = fnv((0x3000..0xFE00u16).map(|a| { let (d, i) = self.sim.mem[a].verif_parts(); ((d as u64) << 16) | i as u64 }));
+                format!("{:016x}", hsh)
+            }
+            ["known"] => {
+                // C31: a Known strategy initialises every register and every word outside the OS image / I/O page to the value, uninitialised
+                let os: std::collections::HashSet<u16> = lc3_ensemble::sim::_os_obj_file().addr_iter().map(|(a, _)| a).collect();
+                let mut bad = 0u32;
+                for a in 0..0xFE00u16 { if !os.contains(&a) && self.shadow_initial(a) != (self.fill, 0) { bad += 1; } }
+                format!("known bad={bad}")
+            }
             ["memhash"] => {
                 let hsh = fnv((0..=u16::MAX).map(|a| { let (d, i) = self.sim.mem[a].verif_parts(); ((d as u64) << 16) | i as u64 }));
                 format!("{:016x}", hsh)
@@ -401,6 +426,14 @@ impl SimCtx {
 
 /// `sim new s r d i fill` creates the context; everything else needs one.
 pub fn exec(slot: &mut Option<SimCtx>, t: &[&str]) -> String {
+    if let ["newseed", s, r, d, i, seed] = t {
+        let (Some(s), Some(r), Some(d), Some(i), Ok(seed)) = (b(s), b(r), b(d), b(i), seed.parse::<u64>()) else { return "bad-op".into() };
+        let mut c = SimCtx::new(s, r, d, i, 0);
+        c.sim = Simulator::new(SimFlags { strict: s, use_real_traps: r, machine_init: MachineInitStrategy::Seeded { seed }, debug_frames: d, ignore_privilege: i });
+        c.sync_all();
+        *slot = Some(c);
+        return "ok".into();
+    }
     if let ["new", s, r, d, i, fill] = t {
         let (Some(s), Some(r), Some(d), Some(i), Some(fill)) = (b(s), b(r), b(d), b(i), h(fill)) else { return "bad-op".into() };
         *slot = Some(SimCtx::new(s, r, d, i, fill));
